@@ -915,11 +915,17 @@ class Reduce(Op):
                 how = draw(s.sampled_from(["sum", "any", "all", "count"]))
             else:
                 how = draw(s.sampled_from(["count", "nunique", "size"]))
-            return {"how": how, "split_every": draw(s.sampled_from([None, None, 2]))}
+            out = {"how": how, "split_every": draw(s.sampled_from([None, None, 2]))}
+            if how in ("var", "std") and draw(s.booleans()):
+                out["ddof"] = draw(s.sampled_from([0, 2]))
+            return out
         if not (len(x.columns) and all(col_kind(d) in ("int", "float") for d in x.dtypes)):
             return None
         how = draw(s.sampled_from(["sum", "min", "max", "mean", "count", "var", "std"]))
-        return {"how": how, "split_every": draw(s.sampled_from([None, None, 2]))}
+        out = {"how": how, "split_every": draw(s.sampled_from([None, None, 2]))}
+        if how in ("var", "std") and draw(s.booleans()):
+            out["ddof"] = draw(s.sampled_from([0, 2]))
+        return out
 
     @staticmethod
     def apply(side, objs, args):
@@ -927,9 +933,11 @@ class Reduce(Op):
         how = args["how"]
         if how == "size":
             return x.size
-        if side == "pandas" or how in ("nunique",):
-            return getattr(x, how)()
         kw = {}
+        if "ddof" in args:
+            kw["ddof"] = args["ddof"]
+        if side == "pandas" or how in ("nunique",):
+            return getattr(x, how)(**kw)
         if args.get("split_every"):
             kw["split_every"] = args["split_every"]
         return getattr(x, how)(**kw)
@@ -1480,3 +1488,297 @@ class BinopMisaligned(Op):
     def flags(ins, args, out):
         fa, fb = ins[0][1], ins[1][1]
         return Flags(ordered=True, indexed=True, layout=False, rowset="", pandas_ok=fa.pandas_ok and fb.pandas_ok, srcs=tuple(sorted(set(fa.srcs) | set(fb.srcs))))
+
+
+# ------------------------------------------------------------------ second batch of operators (session 2)
+
+
+@register("replace", kinds=("series", "frame"), weight=0.5, tags={"rowwise"})
+class Replace(Op):
+    @staticmethod
+    def gen(draw, ins):
+        x = ins[0][0]
+        s = st()
+        if kind_of(x) == "series":
+            k = col_kind(x.dtype)
+            if k == "int":
+                return {"to_replace": draw(s.integers(0, 3)), "value": draw(s.integers(5, 7))}
+            if k == "str":
+                return {"to_replace": draw(s.sampled_from(["a", "b"])), "value": "zz"}
+            return None
+        ints = cols_of(x, ("int",))
+        if not ints:
+            return None
+        return {"to_replace": {draw(s.sampled_from(ints)): draw(s.integers(0, 3))}, "value": draw(s.integers(5, 7))}
+
+    @staticmethod
+    def apply(side, objs, args):
+        return objs[0].replace(args["to_replace"], args["value"])
+
+
+@register("between", kinds=("series",), weight=0.5, tags={"rowwise"})
+class Between(Op):
+    @staticmethod
+    def gen(draw, ins):
+        if col_kind(ins[0][0].dtype) not in ("int", "float"):
+            return None
+        s = st()
+        lo = draw(s.integers(-2, 2))
+        return {"left": lo, "right": lo + draw(s.integers(0, 3)), "inclusive": draw(s.sampled_from(["both", "neither", "left"]))}
+
+    @staticmethod
+    def apply(side, objs, args):
+        return objs[0].between(args["left"], args["right"], inclusive=args["inclusive"])
+
+
+@register("map_dict", kinds=("series",), weight=0.4, tags={"rowwise"})
+class MapDict(Op):
+    @staticmethod
+    def gen(draw, ins):
+        if col_kind(ins[0][0].dtype) != "int":
+            return None
+        return {"mapping": {"0": 10, "1": 11, "2": draw(st().integers(12, 14))}}
+
+    @staticmethod
+    def apply(side, objs, args):
+        m = {int(k): v for k, v in args["mapping"].items()}
+        if side == "pandas":
+            return objs[0].map(m)
+        return objs[0].map(m, meta=(objs[0].name, "float64"))
+
+
+@register("combine_first", arity=2, kinds=("frame", "frame"), weight=0.4, tags={"rowwise", "aligned"})
+class CombineFirst(Op):
+    @staticmethod
+    def gen(draw, ins):
+        (a, fa), (b, fb) = ins
+        if fa.rowset != fb.rowset or not fa.indexed or a.index.has_duplicates:
+            return None
+        return {}
+
+    @staticmethod
+    def apply(side, objs, args):
+        return objs[0].combine_first(objs[1])
+
+
+@register("merge_lr", arity=2, kinds=("frame", "frame"), weight=1.0, tags={"join"})
+class MergeLR(Op):
+    """left_on / right_on with differently named keys, optional indicator"""
+
+    @staticmethod
+    def gen(draw, ins):
+        (a, fa), (b, fb) = ins
+        s = st()
+        la = [c for c in cols_of(a, ("int",)) if c != "rid"]
+        lb = [c for c in cols_of(b, ("int",)) if c != "rid"]
+        if not la or not lb:
+            return None
+        return {"left_on": draw(s.sampled_from(la)), "right_on": draw(s.sampled_from(lb)), "how": draw(s.sampled_from(["inner", "left", "right", "outer"])), "indicator": draw(s.sampled_from([False, False, True]))}
+
+    @staticmethod
+    def apply(side, objs, args):
+        return objs[0].merge(objs[1], left_on=args["left_on"], right_on=args["right_on"], how=args["how"], indicator=args["indicator"], suffixes=("_p", "_q"))
+
+    @staticmethod
+    def flags(ins, args, out):
+        fa, fb = ins[0][1], ins[1][1]
+        return Flags(ordered=False, indexed=False, layout=False, rowset="", pandas_ok=fa.pandas_ok and fb.pandas_ok, srcs=tuple(sorted(set(fa.srcs) | set(fb.srcs))))
+
+
+@register("merge_leftsemi", arity=2, kinds=("frame", "frame"), weight=0.6, tags={"join"})
+class MergeLeftSemi(Op):
+    @staticmethod
+    def gen(draw, ins):
+        (a, fa), (b, fb) = ins
+        common = [c for c in a.columns if c in b.columns and col_kind(a[c].dtype) == col_kind(b[c].dtype) and col_kind(a[c].dtype) in ("int", "str") and c != "rid"]
+        if not common:
+            return None
+        return {"on": _subset(draw, common, max_size=2)}
+
+    @staticmethod
+    def apply(side, objs, args):
+        on = list(args["on"])
+        if side == "pandas":
+            keys = objs[1][on].drop_duplicates()
+            return objs[0].merge(keys, on=on, how="inner")[list(objs[0].columns)]
+        return objs[0].merge(objs[1], on=on, how="leftsemi")
+
+    @staticmethod
+    def flags(ins, args, out):
+        fa, fb = ins[0][1], ins[1][1]
+        return Flags(ordered=False, indexed=False, layout=False, rowset="", pandas_ok=fa.pandas_ok and fb.pandas_ok, srcs=tuple(sorted(set(fa.srcs) | set(fb.srcs))))
+
+
+@register("join_list", arity=3, kinds=("frame", "frame", "frame"), weight=0.4, tags={"join"})
+class JoinList(Op):
+    """df.join([a, b]) on the index (JoinRecursive)"""
+
+    @staticmethod
+    def gen(draw, ins):
+        vals = [v for v, _ in ins]
+        fls = [f for _, f in ins]
+        if not all(f.indexed for f in fls):
+            return None
+        idx0 = vals[0].index
+        seen = set()
+        for v in vals:
+            if isinstance(v.index, pd.MultiIndex) or v.index.dtype != idx0.dtype or v.index.has_duplicates or v.index.hasnans or v.index.name != idx0.name:
+                return None
+            if seen & set(v.columns):
+                return None
+            seen |= set(v.columns)
+        return {"how": draw(st().sampled_from(["left", "outer", "inner"]))}
+
+    @staticmethod
+    def apply(side, objs, args):
+        return objs[0].join([objs[1], objs[2]], how=args["how"])
+
+    @staticmethod
+    def flags(ins, args, out):
+        fs = [f for _, f in ins]
+        return Flags(ordered=False, indexed=True, layout=False, rowset="", pandas_ok=all(f.pandas_ok for f in fs), srcs=tuple(sorted(set().union(*[set(f.srcs) for f in fs]))))
+
+
+@register("clear_divisions", kinds=("frame", "series"), weight=0.4, tags={"repartition"})
+class ClearDivisions(Op):
+    @staticmethod
+    def apply(side, objs, args):
+        return objs[0] if side == "pandas" else objs[0].clear_divisions()
+
+    @staticmethod
+    def flags(ins, args, out):
+        return replace(ins[0][1], rowset="")
+
+
+@register("shuffle_index", kinds=("frame",), weight=0.4, tags={"shuffle"})
+class ShuffleIndex(Op):
+    @staticmethod
+    def gen(draw, ins):
+        x, f = ins[0]
+        if not f.indexed or isinstance(x.index, pd.MultiIndex):
+            return None
+        return {"npartitions": draw(st().sampled_from([None, 2, 3]))}
+
+    @staticmethod
+    def apply(side, objs, args):
+        return objs[0] if side == "pandas" else objs[0].shuffle(on_index=True, npartitions=args["npartitions"])
+
+    @staticmethod
+    def flags(ins, args, out):
+        return replace(ins[0][1], rowset="", ordered=False, layout=False)
+
+
+@register("set_index_series", kinds=("frame",), weight=0.5, tags={"sort", "set_index"})
+class SetIndexSeries(Op):
+    """set_index with an aligned Series expression instead of a column name"""
+
+    @staticmethod
+    def gen(draw, ins):
+        x = ins[0][0]
+        cands = [c for c in cols_of(x, ("int",)) if not x[c].isna().any()]
+        if not cands or len(x) == 0:
+            return None
+        return {"col": draw(st().sampled_from(cands)), "add": draw(st().integers(0, 2))}
+
+    @staticmethod
+    def apply(side, objs, args):
+        key = (objs[0][args["col"]] + args["add"]).rename("newidx")
+        if side == "pandas":
+            return objs[0].set_index(key).sort_index(kind="stable")
+        return objs[0].set_index(key)
+
+    @staticmethod
+    def flags(ins, args, out):
+        x, f = ins[0]
+        return replace(f, rowset="", indexed=True, ordered=bool(x[args["col"]].is_unique), layout=False)
+
+
+@register("series_stat", arity=2, kinds=("series", "series"), weight=0.4, tags={"reduction", "aligned"})
+class SeriesStat(Op):
+    @staticmethod
+    def gen(draw, ins):
+        (a, fa), (b, fb) = ins
+        if fa.rowset != fb.rowset or col_kind(a.dtype) not in ("int", "float") or col_kind(b.dtype) not in ("int", "float"):
+            return None
+        return {"how": draw(st().sampled_from(["cov", "corr"]))}
+
+    @staticmethod
+    def apply(side, objs, args):
+        return getattr(objs[0], args["how"])(objs[1])
+
+    @staticmethod
+    def flags(ins, args, out):
+        return replace(ins[0][1], rowset="", ordered=True, indexed=True, layout=True)
+
+
+@register("frame_stat", kinds=("frame",), weight=0.4, tags={"reduction"})
+class FrameStat(Op):
+    @staticmethod
+    def gen(draw, ins):
+        x = ins[0][0]
+        num = cols_of(x, ("int", "float"))
+        if len(num) < 2:
+            return None
+        return {"how": draw(st().sampled_from(["cov", "corr"])), "cols": _subset(draw, num, min_size=2, max_size=3)}
+
+    @staticmethod
+    def apply(side, objs, args):
+        return getattr(objs[0][list(args["cols"])], args["how"])()
+
+    @staticmethod
+    def flags(ins, args, out):
+        return replace(ins[0][1], rowset="", ordered=True, indexed=True, layout=True)
+
+
+@register("mode", kinds=("series",), weight=0.3, tags={"reduction"})
+class Mode(Op):
+    @staticmethod
+    def gen(draw, ins):
+        if col_kind(ins[0][0].dtype) not in ("int", "str"):
+            return None
+        return {}
+
+    @staticmethod
+    def apply(side, objs, args):
+        return objs[0].mode()
+
+    @staticmethod
+    def flags(ins, args, out):
+        return replace(ins[0][1], rowset="", ordered=True, indexed=False, layout=True)
+
+
+@register("map_overlap", kinds=("frame",), weight=0.4, tags={"window", "udf"})
+class MapOverlap(Op):
+    @staticmethod
+    def gen(draw, ins):
+        x, f = ins[0]
+        if not f.ordered or not (len(x.columns) and all(col_kind(d) in ("int", "float") for d in x.dtypes)):
+            return None
+        s = st()
+        return {"before": draw(s.integers(0, 2)), "after": draw(s.integers(0, 2))}
+
+    @staticmethod
+    def apply(side, objs, args):
+        w = args["before"] + args["after"] + 1
+        if side == "pandas":
+            return udfs.window_sum(objs[0], before=args["before"], after=args["after"])
+        return objs[0].map_overlap(udfs.window_sum, args["before"], args["after"], before=args["before"], after=args["after"], meta=objs[0]._meta.astype("float64"))
+
+
+@register("reduction_custom", kinds=("series",), weight=0.3, tags={"reduction", "udf"})
+class ReductionCustom(Op):
+    @staticmethod
+    def gen(draw, ins):
+        if col_kind(ins[0][0].dtype) not in ("int", "float"):
+            return None
+        return {}
+
+    @staticmethod
+    def apply(side, objs, args):
+        if side == "pandas":
+            return udfs.red_agg(pd.Series([udfs.red_chunk(objs[0])]))
+        return objs[0].reduction(udfs.red_chunk, aggregate=udfs.red_agg, meta=("r", "float64"))
+
+    @staticmethod
+    def flags(ins, args, out):
+        return replace(ins[0][1], rowset="", ordered=True, indexed=True, layout=True)
